@@ -20,35 +20,39 @@ Open Scope N_scope.
 Record cfg := mkCfg { g_limit : N; g_maxlen : N; g_maxq : N }.     (* 0 = unlimited *)
 
 Inductive script := SOk | SErr (code : N) | SAsync.
-Inductive route := RStream | RSharedPoll | RMap.
+Inductive route := RStream | RSharedPoll | RMap | RMapPaged.   (* RMapPaged: map channel whose state needs a second page *)
 
 Record st := mkSt {
   closed : bool;
   chans : list N;             (* Client.channels entries with flagSubscribed *)
   resv : list (N * N);        (* reservations (token, channel): subscribe callbacks held by the application *)
   mpend : list (N * N);       (* map subscribes whose callback is held: validateSubscribeRequest reserved nothing *)
+  mpag : list N;              (* map subscriptions between two pages of their state (entry in Client.mapSubscribing) *)
   next : N;
   q : N                       (* bytes in the writer queue *)
 }.
 
-Definition init : st := mkSt false [] [] [] 0 0.
+Definition init : st := mkSt false [] [] [] [] 0 0.
 
 Inductive out := OReply (err : N) | OClose (code : N) | OHandler (name : N).
 
 Definition memN (x : N) (l : list N) : bool := existsb (N.eqb x) l.
-Definition held (s : st) : N := N.of_nat (length (chans s) + length (resv s)).
-Definition taken (s : st) (n : N) : bool := memN n (chans s) || memN n (map snd (resv s)).
+Definition held (s : st) : N := N.of_nat (length (chans s) + length (resv s) + length (mpag s)).
+Definition taken (s : st) (n : N) : bool := memN n (chans s) || memN n (map snd (resv s)) || memN n (mpag s).
 
 Definition close (s : st) (code : N) : st * list out :=
-  if closed s then (s, []) else (mkSt true (chans s) (resv s) (mpend s) (next s) (q s), [OClose code]).
+  if closed s then (s, []) else (mkSt true (chans s) (resv s) (mpend s) (mpag s) (next s) (q s), [OClose code]).
 
 Definition at_limit (g : cfg) (s : st) : bool := (0 <? g_limit g) && (g_limit g <=? held s).
 
-(* a map subscribe goes live: the reservation is installed after the callback *)
-Definition map_install (recheck : bool) (g : cfg) (s : st) (n : N) (rest : list (N * N)) : st * list out :=
-  if recheck && at_limit g s then (mkSt false (chans s) (resv s) rest (next s) (q s), [OReply 106])
-  else if memN n (chans s) then (mkSt false (chans s) (resv s) rest (next s) (q s), [OReply 105])
-  else (mkSt false (chans s ++ [n]) (resv s) rest (next s) (q s), [OReply 0]).
+(* a map subscribe installs its reservation after the callback; with a single page of state it
+   goes live at once, otherwise it stays in Client.mapSubscribing until the client has fetched
+   the remaining pages *)
+Definition map_install (recheck : bool) (g : cfg) (s : st) (n : N) (paged : bool) (rest : list (N * N)) : st * list out :=
+  if recheck && at_limit g s then (mkSt false (chans s) (resv s) rest (mpag s) (next s) (q s), [OReply 106])
+  else if memN n (chans s) || memN n (mpag s) then (mkSt false (chans s) (resv s) rest (mpag s) (next s) (q s), [OReply 105])
+  else if paged then (mkSt false (chans s) (resv s) rest (mpag s ++ [n]) (next s) (q s), [OReply 0])
+  else (mkSt false (chans s ++ [n]) (resv s) rest (mpag s) (next s) (q s), [OReply 0]).
 
 (* client subscribe command on one of the three routes;
    [lencheck_sp] = does the shared-poll route check the name length,
@@ -59,21 +63,22 @@ Definition sub_gen (lencheck_sp recheck : bool) (g : cfg) (s : st) (n len : N) (
   let sp := match rt with RSharedPoll => true | _ => false end in
   if (0 <? g_maxlen g) && (g_maxlen g <? len) && (negb sp || lencheck_sp) then (s, [OReply 107]) else
   match rt with
-  | RMap =>
-      if memN n (chans s) then (s, [OReply 105]) else
+  | RMap | RMapPaged =>
+      let paged := match rt with RMapPaged => true | _ => false end in
+      if memN n (chans s) || memN n (mpag s) then (s, [OReply 105]) else
       if at_limit g s then (s, [OReply 106]) else
       match sc with
-      | SOk => let '(s1, o1) := map_install recheck g s n (mpend s) in (s1, OHandler n :: o1)
+      | SOk => let '(s1, o1) := map_install recheck g s n paged (mpend s) in (s1, OHandler n :: o1)
       | SErr code => (s, [OHandler n; OReply code])
-      | SAsync => (mkSt false (chans s) (resv s) (mpend s ++ [(next s, n)]) (next s + 1) (q s), [OHandler n])
+      | SAsync => (mkSt false (chans s) (resv s) (mpend s ++ [(next s, n)]) (mpag s) (next s + 1) (q s), [OHandler n])
       end
   | _ =>
       if taken s n then (s, [OReply 105]) else
       if at_limit g s then (s, [OReply 106]) else
       match sc with
-      | SOk => (mkSt false (chans s ++ [n]) (resv s) (mpend s) (next s) (q s), [OHandler n; OReply 0])
+      | SOk => (mkSt false (chans s ++ [n]) (resv s) (mpend s) (mpag s) (next s) (q s), [OHandler n; OReply 0])
       | SErr code => (s, [OHandler n; OReply code])
-      | SAsync => (mkSt false (chans s) (resv s ++ [(next s, n)]) (mpend s) (next s + 1) (q s), [OHandler n])
+      | SAsync => (mkSt false (chans s) (resv s ++ [(next s, n)]) (mpend s) (mpag s) (next s + 1) (q s), [OHandler n])
       end
   end.
 Definition sub_cmd := sub_gen true true.
@@ -90,37 +95,46 @@ Fixpoint take (tok : N) (l : list (N * N)) : option (N * list (N * N)) :=
 Definition complete_gen (recheck : bool) (g : cfg) (s : st) (tok : N) (ok : bool) : st * list out :=
   match take tok (resv s) with
   | Some (n, rest) =>
-      if closed s then (mkSt true (chans s) rest (mpend s) (next s) (q s), [])
-      else if ok then (mkSt false (chans s ++ [n]) rest (mpend s) (next s) (q s), [OReply 0])
-      else (mkSt false (chans s) rest (mpend s) (next s) (q s), [OReply 103])
+      if closed s then (mkSt true (chans s) rest (mpend s) (mpag s) (next s) (q s), [])
+      else if ok then (mkSt false (chans s ++ [n]) rest (mpend s) (mpag s) (next s) (q s), [OReply 0])
+      else (mkSt false (chans s) rest (mpend s) (mpag s) (next s) (q s), [OReply 103])
   | None =>
       match take tok (mpend s) with
       | None => (s, [])
       | Some (n, rest) =>
-          if closed s then (mkSt true (chans s) (resv s) rest (next s) (q s), [])
-          else if ok then map_install recheck g s n rest
-          else (mkSt false (chans s) (resv s) rest (next s) (q s), [OReply 103])
+          if closed s then (mkSt true (chans s) (resv s) rest (mpag s) (next s) (q s), [])
+          else if ok then map_install recheck g s n false rest
+          else (mkSt false (chans s) (resv s) rest (mpag s) (next s) (q s), [OReply 103])
       end
   end.
 Definition complete := complete_gen true.
 Definition complete_prefix := complete_gen false.
+
+(* the client fetches the last page of a paginated map subscription: it goes live
+   (validateSubscribeRequest lets a continuation through without a limit check: the slot is
+   already counted) *)
+Definition map_next (s : st) (n : N) : option (st * list out) :=
+  if closed s then Some (s, []) else
+  if memN n (mpag s)
+  then Some (mkSt false (chans s ++ [n]) (resv s) (mpend s) (filter (fun x => negb (x =? n)) (mpag s)) (next s) (q s), [OReply 0])
+  else None.
 
 (* server-side Client.Subscribe *)
 Definition srv_sub (g : cfg) (s : st) (n : N) : st * list out :=
   if closed s then (s, []) else
   if at_limit g s then close s 3505 else
   if taken s n then (s, []) else
-  (mkSt false (chans s ++ [n]) (resv s) (mpend s) (next s) (q s), []).
+  (mkSt false (chans s ++ [n]) (resv s) (mpend s) (mpag s) (next s) (q s), []).
 
 Definition unsub_cmd (s : st) (n : N) : option (st * list out) :=
   if closed s then Some (s, []) else
-  if memN n (map snd (resv s)) then None        (* waits for the subscribe in flight *)
-  else Some (mkSt false (filter (fun x => negb (x =? n)) (chans s)) (resv s) (mpend s) (next s) (q s), [OReply 0]).
+  if memN n (map snd (resv s)) || memN n (mpag s) then None        (* waits for the subscribe in flight *)
+  else Some (mkSt false (filter (fun x => negb (x =? n)) (chans s)) (resv s) (mpend s) (mpag s) (next s) (q s), [OReply 0]).
 
 (* a message of [size] encoded bytes is enqueued while the writer is stuck *)
 Definition enqueue (g : cfg) (s : st) (size : N) : st * list out :=
   if closed s then (s, []) else
-  let s1 := mkSt false (chans s) (resv s) (mpend s) (next s) (q s + size) in
+  let s1 := mkSt false (chans s) (resv s) (mpend s) (mpag s) (next s) (q s + size) in
   if (0 <? g_maxq g) && (g_maxq g <? q s1) then close s1 3008 else (s1, []).
 
 Inductive label :=
@@ -128,6 +142,7 @@ Inductive label :=
 | LComplete (tok : N) (ok : bool)
 | LSrvSub (n : N)
 | LUnsub (n : N)
+| LMapNext (n : N)
 | LEnqueue (size : N).
 
 Section Step.
@@ -139,6 +154,7 @@ Section Step.
     | LComplete tok ok => Some (compl g s tok ok)
     | LSrvSub n => Some (srv_sub g s n)
     | LUnsub n => unsub_cmd s n
+    | LMapNext n => map_next s n
     | LEnqueue size => Some (enqueue g s size)
     end.
   Fixpoint trace_gen (g : cfg) (s : st) (ls : list label) : option (list (list out * st)) :=
